@@ -2,10 +2,12 @@
 # try_benign.sh <dir with *.diff>: applies each behaviour-preserving patch to /repo in turn, runs every check whose
 # packages contain a touched directory, and reports any VIOLATION (a false alarm) - /repo must be clean
 cd "$(dirname "$0")/.."
-if [ -n "$(git -C /repo status --porcelain)" ]; then echo "refusing: /repo has uncommitted changes"; exit 2; fi
+REPO=${REPO:-/repo}
+export VERIF_DIR=$(pwd)
+if [ -n "$(git -C $REPO status --porcelain)" ]; then echo "refusing: /repo has uncommitted changes"; exit 2; fi
 for P in "$1"/*.diff; do
-  git -C /repo apply "$P" 2>/dev/null || { echo "$(basename $P): does not apply"; continue; }
-  dirs=$(git -C /repo diff --name-only | xargs -n1 dirname | sort -u)
+  git -C $REPO apply "$P" 2>/dev/null || { echo "$(basename $P): does not apply"; continue; }
+  dirs=$(git -C $REPO diff --name-only | xargs -n1 dirname | sort -u)
   props=$(python3 - "$dirs" <<'PY'
 import json,sys
 dirs=sys.argv[1].split()
@@ -18,13 +20,13 @@ PY
   res=""
   for id in $props; do
     cp evidence/$id.json /tmp/evidence_keep_$id.json 2>/dev/null
-    out=$(./check $id 2>&1); rc=$?
+    out=$(./check $id --repo $REPO 2>&1); rc=$?
     cp /tmp/evidence_keep_$id.json evidence/$id.json 2>/dev/null
     v=$(echo "$out" | grep -c "^VIOLATION")
     u=$(echo "$out" | grep -c "undecided:")
     res="$res $id:rc=$rc,viol=$v,undec=$u"
     if [ $rc -ne 0 ]; then echo "$out" | grep "^VIOLATION" | cut -c1-300 | sed "s|^|    |"; fi
   done
-  git -C /repo apply -R "$P"
+  git -C $REPO apply -R "$P"
   echo "$(basename $P): $res"
 done
